@@ -1,6 +1,8 @@
 package main
 
 import (
+	"math/big"
+	"strconv"
 	"go/token"
 	"fmt"
 	"go/types"
@@ -794,7 +796,36 @@ func (e *Enc) special(fr *Frame, st *State, full string, callee *ssa.Function, a
 		}
 		b := args[len(args)-2]
 		e.boundsCheck(st, fmt.Sprintf("(>= %s %s)", b.S[1], n), "binary.PutUintN: buffer too short at "+e.w.posOf(site.Pos()))
-		e.havocRange(st, elemType(b.T), b.S[0], n)
+		// exact: byte k of the n-byte big/little-endian representation of v
+		{
+			nn, _ := strconv.Atoi(n)
+			v := args[len(args)-1].term()
+			bt := elemType(b.T)
+			big := strings.Contains(full, "bigEndian")
+			// the bytes are fresh digits d_w in [0,255] with v == sum d_w * 256^w (the base-256
+			// representation exists and is unique for 0 <= v < 256^n, which the argument's type
+			// guarantees): linear for the solvers, unlike div/mod chains
+			var sum []string
+			digits := make([]string, nn)
+			for w := 0; w < nn; w++ {
+				d := e.s.Fresh("digit", "Int")
+				digits[w] = d
+				e.assume(st, fmt.Sprintf("(and (<= 0 %s) (<= %s 255))", d, d))
+				if w == 0 {
+					sum = append(sum, d)
+				} else {
+					sum = append(sum, fmt.Sprintf("(* %s %s)", pow256(w), d))
+				}
+			}
+			e.assume(st, fmt.Sprintf("(= %s (+ %s))", v, strings.Join(sum, " ")))
+			for k := 0; k < nn; k++ {
+				w := k
+				if big {
+					w = nn - 1 - k
+				}
+				e.storeAt(st, elemAddr(b.S[0], 1, fmt.Sprintf("%d", k)), bt, "", intVal(bt, digits[w]))
+			}
+		}
 		return unitVal(), true
 	case "(encoding/binary.bigEndian).Uint64", "(encoding/binary.littleEndian).Uint64",
 		"(encoding/binary.bigEndian).Uint32", "(encoding/binary.littleEndian).Uint32",
@@ -807,15 +838,54 @@ func (e *Enc) special(fr *Frame, st *State, full string, callee *ssa.Function, a
 		}
 		b := args[len(args)-1]
 		e.boundsCheck(st, fmt.Sprintf("(>= %s %s)", b.S[1], n), "binary.UintN: buffer too short at "+e.w.posOf(site.Pos()))
-		r := e.fresh(rt, "rdint")
-		e.assume(st, e.wf(r, st.alloc))
-		return r, true
+		// exact: the value of the n bytes read big/little-endian
+		{
+			nn, _ := strconv.Atoi(n)
+			bt := elemType(b.T)
+			big := strings.Contains(full, "bigEndian")
+			var terms []string
+			for k := 0; k < nn; k++ {
+				w := k
+				if big {
+					w = nn - 1 - k
+				}
+				bv := e.loadAt(st, elemAddr(b.S[0], 1, fmt.Sprintf("%d", k)), bt, "")
+				if w == 0 {
+					terms = append(terms, bv.term())
+				} else {
+					terms = append(terms, fmt.Sprintf("(* %s %s)", pow256(w), bv.term()))
+				}
+			}
+			r := e.nameVal(intVal(rt, "(+ "+strings.Join(terms, " ")+")"), "rdint")
+			return r, true
+		}
 	case "sort.Search":
 		// returns an index in [0, n] (the smallest for which the predicate holds, if monotone)
 		r := e.fresh(rt, "search")
 		e.assume(st, fmt.Sprintf("(and (<= 0 %s) (<= %s %s))", r.term(), r.term(), args[0].term()))
 		return r, true
 	case "fmt.Sprintf", "fmt.Sprint":
+		// Sprintf of a constant format with up to four arguments of integer, bool or string type is
+		// a function of the format and the argument values (an uninterpreted one): two calls with
+		// equal inputs yield equal strings. Anything else stays an unknown string.
+		if full == "fmt.Sprintf" && len(args) == 2 {
+			if ci, ok := site.(ssa.CallInstruction); ok && len(ci.Common().Args) == 2 {
+				if ops, ok := variadicScalarOperands(ci.Common().Args[1]); ok && len(ops) >= 1 && len(ops) <= 4 {
+					terms := []string{args[0].term()}
+					for _, op := range ops {
+						v := e.val(fr, st, op)
+						if v.K == KBool {
+							terms = append(terms, ite(v.term(), "1", "0"))
+						} else {
+							terms = append(terms, v.term())
+						}
+					}
+					name := fmt.Sprintf("sprintf%d", len(ops))
+					e.w.declareUF(e.s, name, len(ops)+1, "Int")
+					return e.nameVal(intVal(rt, app(name, terms...)), "str"), true
+				}
+			}
+		}
 		r := e.fresh(rt, "str")
 		return r, true
 	}
@@ -1159,4 +1229,63 @@ func (e *Enc) resultsAvoidUnescaped(fr *Frame, st *State, site ssa.Instruction, 
 			}
 		}
 	}
+}
+
+func pow256(w int) string {
+	x := new(big.Int).Exp(big.NewInt(256), big.NewInt(int64(w)), nil)
+	return x.String()
+}
+
+// variadicScalarOperands recognises the slice the compiler builds for a variadic ...interface{}
+// argument (new [n]interface{}; stores of MakeInterface values; slice) and returns the operands when
+// all of them are of integer, bool or string type.
+func variadicScalarOperands(v ssa.Value) ([]ssa.Value, bool) {
+	sl, ok := v.(*ssa.Slice)
+	if !ok {
+		return nil, false
+	}
+	al, ok := sl.X.(*ssa.Alloc)
+	if !ok {
+		return nil, false
+	}
+	at, ok := derefType(al.Type()).Underlying().(*types.Array)
+	if !ok || at.Len() > 4 {
+		return nil, false
+	}
+	ops := make([]ssa.Value, at.Len())
+	for _, ref := range *al.Referrers() {
+		ia, ok := ref.(*ssa.IndexAddr)
+		if !ok {
+			continue
+		}
+		c, ok := ia.Index.(*ssa.Const)
+		if !ok || c.Value == nil {
+			return nil, false
+		}
+		idx := int(c.Int64())
+		for _, r2 := range *ia.Referrers() {
+			st, ok := r2.(*ssa.Store)
+			if !ok || st.Addr != ia {
+				continue
+			}
+			mi, ok := st.Val.(*ssa.MakeInterface)
+			if !ok {
+				return nil, false
+			}
+			b, ok := mi.X.Type().Underlying().(*types.Basic)
+			if !ok || b.Info()&(types.IsInteger|types.IsBoolean|types.IsString) == 0 {
+				return nil, false
+			}
+			if idx < 0 || idx >= len(ops) || ops[idx] != nil {
+				return nil, false
+			}
+			ops[idx] = mi.X
+		}
+	}
+	for _, o := range ops {
+		if o == nil {
+			return nil, false
+		}
+	}
+	return ops, true
 }
